@@ -47,6 +47,7 @@ def plan(tier, seed):
     shards = 16 if tier == 'quick' else 48
     specs = [{'kind': 'hier', 'n': n // shards, 'hshard': s} for s in range(shards)]
     specs.append({'kind': 'alt', 'n': 40 if tier == 'quick' else 600})
+    specs.append({'kind': 'simple'})
     return specs
 
 
@@ -422,8 +423,149 @@ def run_alt(spec, res):
                         res.count('rule:alternative')
 
 
+# ---------------------------------------------------------------------------------------------
+# xsi:type over simple types, unions, lists and complex types with simple content (exhaustive small catalogue)
+SIMPLE_XSD = f'''<xs:schema xmlns:xs="{XS}" targetNamespace="{TNS}" xmlns:t="{TNS}" elementFormDefault="qualified">
+  <xs:simpleType name="Small"><xs:restriction base="xs:int"><xs:maxInclusive value="9"/></xs:restriction></xs:simpleType>
+  <xs:simpleType name="Tiny"><xs:restriction base="t:Small"><xs:maxInclusive value="3"/></xs:restriction></xs:simpleType>
+  <xs:simpleType name="U"><xs:union memberTypes="t:Small xs:boolean"/></xs:simpleType>
+  <xs:simpleType name="UR"><xs:restriction base="t:U"><xs:enumeration value="1"/><xs:enumeration value="true"/></xs:restriction></xs:simpleType>
+  <xs:simpleType name="L"><xs:list itemType="xs:int"/></xs:simpleType>
+  <xs:simpleType name="L2"><xs:restriction base="t:L"><xs:maxLength value="2"/></xs:restriction></xs:simpleType>
+  <xs:complexType name="SC"><xs:simpleContent><xs:extension base="xs:decimal"><xs:attribute name="unit" type="xs:string"/></xs:extension></xs:simpleContent></xs:complexType>
+  <xs:complexType name="SCR"><xs:simpleContent><xs:restriction base="t:SC"><xs:maxInclusive value="100"/></xs:restriction></xs:simpleContent></xs:complexType>
+  <xs:complexType name="SCE"><xs:simpleContent><xs:extension base="t:SC"><xs:attribute name="extra" type="xs:int"/></xs:extension></xs:simpleContent></xs:complexType>
+  <xs:complexType name="Other"><xs:sequence><xs:element name="x" type="xs:string" minOccurs="0"/></xs:sequence></xs:complexType>
+  <xs:element name="r"><xs:complexType><xs:choice maxOccurs="unbounded">
+    <xs:element name="e_int" type="xs:int"/><xs:element name="e_small" type="t:Small"/><xs:element name="e_u" type="t:U"/>
+    <xs:element name="e_l" type="t:L"/><xs:element name="e_dec" type="xs:decimal"/>
+    <xs:element name="e_dec_bx" type="xs:decimal" block="extension"/><xs:element name="e_dec_br" type="xs:decimal" block="restriction"/>
+    <xs:element name="e_sc" type="t:SC"/><xs:element name="e_sc_br" type="t:SC" block="restriction"/>
+    <xs:element name="e_any" type="xs:anyType"/><xs:element name="e_anys" type="xs:anySimpleType"/>
+  </xs:choice></xs:complexType></xs:element>
+</xs:schema>'''
+
+# type -> (base, derivation step from the base, is complex)
+SIMPLE_TYPES = {
+    'xs:anyType': (None, None, True), 'xs:anySimpleType': ('xs:anyType', 'restriction', False),
+    'xs:decimal': ('xs:anySimpleType', 'restriction', False), 'xs:integer': ('xs:decimal', 'restriction', False),
+    'xs:long': ('xs:integer', 'restriction', False), 'xs:int': ('xs:long', 'restriction', False),
+    'xs:boolean': ('xs:anySimpleType', 'restriction', False), 'xs:string': ('xs:anySimpleType', 'restriction', False),
+    't:Small': ('xs:int', 'restriction', False), 't:Tiny': ('t:Small', 'restriction', False),
+    't:U': ('xs:anySimpleType', 'restriction', False), 't:UR': ('t:U', 'restriction', False),
+    't:L': ('xs:anySimpleType', 'restriction', False), 't:L2': ('t:L', 'restriction', False),
+    't:SC': ('xs:decimal', 'extension', True), 't:SCR': ('t:SC', 'restriction', True), 't:SCE': ('t:SC', 'extension', True),
+    't:Other': ('xs:anyType', 'restriction', True),
+}
+UNION_MEMBERS = {'t:U': ('t:Small', 'xs:boolean')}
+SIMPLE_ELEMENTS = {'e_int': ('xs:int', ''), 'e_small': ('t:Small', ''), 'e_u': ('t:U', ''), 'e_l': ('t:L', ''), 'e_dec': ('xs:decimal', ''),
+                   'e_dec_bx': ('xs:decimal', 'extension'), 'e_dec_br': ('xs:decimal', 'restriction'), 'e_sc': ('t:SC', ''),
+                   'e_sc_br': ('t:SC', 'restriction'), 'e_any': ('xs:anyType', ''), 'e_anys': ('xs:anySimpleType', '')}
+SIMPLE_TEXTS = ('2', '7', '12', '150', 'true', '1 2', '1 2 3', '2.5', 'abc', '')
+
+
+def simple_steps(d, b):
+    """The derivation steps from b down to d (set of methods) or None if d is not derived from b; a union base admits
+    what is validly derived from one of its members."""
+    steps = set()
+    t = d
+    while t is not None:
+        if t == b:
+            return steps
+        if b in UNION_MEMBERS and t in UNION_MEMBERS[b]:
+            return steps | {'restriction'}
+        base, method, _ = SIMPLE_TYPES[t]
+        steps.add(method)
+        t = base
+    return None
+
+
+def simple_text_ok(t, text):
+    import re
+    v = ' '.join(text.split())
+    integer = bool(re.fullmatch(r'[+-]?[0-9]+', v))
+    if t in ('xs:anyType', 'xs:anySimpleType', 'xs:string'):
+        return True
+    if t == 't:Other':
+        return v == ''
+    if t in ('xs:decimal', 't:SC', 't:SCE'):
+        return bool(re.fullmatch(r'[+-]?([0-9]+(\.[0-9]*)?|\.[0-9]+)', v))
+    if t == 't:SCR':
+        return simple_text_ok('xs:decimal', text) and float(v) <= 100
+    if t in ('xs:integer', 'xs:long', 'xs:int'):
+        return integer
+    if t == 't:Small':
+        return integer and int(v) <= 9
+    if t == 't:Tiny':
+        return integer and int(v) <= 3
+    if t == 'xs:boolean':
+        return v in ('true', 'false', '0', '1')
+    if t == 't:U':
+        return simple_text_ok('t:Small', text) or simple_text_ok('xs:boolean', text)
+    if t == 't:UR':
+        return v in ('1', 'true')
+    if t in ('t:L', 't:L2'):
+        items = v.split()
+        return all(re.fullmatch(r'[+-]?[0-9]+', i) for i in items) and (t == 't:L' or len(items) <= 2)
+    raise ValueError(t)
+
+
+def run_simple(spec, res):
+    xmlschema = env.activate_repo()
+    from lxml import etree
+    arb = etree.XMLSchema(etree.fromstring(SIMPLE_XSD.encode()))
+    for version, cls in (('1.0', xmlschema.XMLSchema10), ('1.1', xmlschema.XMLSchema11)):
+        schema = cls(SIMPLE_XSD)
+        for ename, (decl, block) in SIMPLE_ELEMENTS.items():
+            for xt in [None] + list(SIMPLE_TYPES):
+                for text in SIMPLE_TEXTS:
+                    gov = xt or decl
+                    tags = set()
+                    if xt is None:
+                        want = simple_text_ok(decl, text)
+                    else:
+                        steps = simple_steps(xt, decl)
+                        tags.add('simple-xsi:type')
+                        if steps is None:
+                            want = False
+                            tags.add('not-derived')
+                        elif steps & set(block.split()):
+                            want = False
+                            tags.add('blocked')
+                        else:
+                            want = simple_text_ok(gov, text)
+                            if decl in UNION_MEMBERS:
+                                tags.add('union-member')
+                            if SIMPLE_TYPES[gov][2] and not SIMPLE_TYPES[decl][2]:
+                                tags.add('complex-for-simple')
+                    attr = f' xsi:type="{xt}"' if xt else ''
+                    doc = (f'<t:r xmlns:t="{TNS}" xmlns:xs="{XS}" xmlns:xsi="{XSI}"><t:{ename}{attr}>{text}</t:{ename}></t:r>')
+                    res.evaluations += 1
+                    if xt:
+                        res.nontrivial.add(env.h8((version, ename, xt, text)))
+                    try:
+                        got = schema.is_valid(doc)
+                    except xmlschema.XMLSchemaException as e:
+                        res.violation(f'is_valid-raised:{type(e).__name__}', {'schema': SIMPLE_XSD, 'doc': doc, 'version': version}, str(e)[:200])
+                        continue
+                    if got == want:
+                        res.count('agree')
+                        res.count('simple:agree')
+                        for t in tags:
+                            res.count('rule:' + t)
+                        continue
+                    arb_valid = bool(arb.validate(etree.fromstring(doc.encode())))
+                    if version == '1.0' and arb_valid == got:
+                        res.count('disputed_by_arbiter')
+                        res.inconclusive_case('arbiter sides with library', [ename, xt, text])
+                        continue
+                    direction = 'false-accept' if got else 'false-reject'
+                    res.violation(f'simple:{direction}:{"+".join(sorted(tags)) or "declared-type"}', {'schema': SIMPLE_XSD, 'doc': doc, 'version': version},
+                                  f'{version} {direction}: <{ename} xsi:type={xt}>{text!r} declared {decl} block={block!r} libxml2={arb_valid}')
+
+
 def run_shard(spec, res):
-    {'hier': run_hier, 'alt': run_alt}[spec['kind']](spec, res)
+    {'hier': run_hier, 'alt': run_alt, 'simple': run_simple}[spec['kind']](spec, res)
 
 
 def finalize(res, tier):
